@@ -450,13 +450,21 @@ class Queue(Greenlet):
             self.store.remove(id)
 
     def _dequeue(self, id):
+        # The message is marked in flight before it is read: a second
+        # dispatch of the same id must not read an envelope that is stale by
+        # the time its (slow) read returns.
+        if id in self.active_ids:
+            return
+        self.active_ids.add(id)
         try:
             envelope, attempts = self.store.get(id)
         except KeyError:
+            self.active_ids.discard(id)
             return
-        if id not in self.active_ids:
-            self.active_ids.add(id)
-            self._pool_spawn('relay', self._attempt, id, envelope, attempts)
+        except BaseException:
+            self.active_ids.discard(id)
+            raise
+        self._pool_spawn('relay', self._attempt, id, envelope, attempts)
 
     def _dispatch_first(self):
         # Spawning may block on a full store pool, and the timetable may
